@@ -175,10 +175,32 @@ def oracle_active(case):
         else:
             vals[0], vals[-1] = lo, hi
         Q[:, f] = vals
+    # the question is put to the fitted model: hyper-parameters changed after fit (no refit), or the caller's mask array
+    # rewritten in place, play no part; and asking changes nothing
+    cuts_before = [(fi, np.array(arr, copy=True)) for fi, arr in est.cut_points_list_]
+    P_before = est.predict_proba(X)
+    pred_before = est.predict(X)
+    tamper = case["xseed"] % 4
+    if tamper == 1 and case["mask"] is not None:
+        est.set_params(feature_mask=np.roll(np.asarray(case["mask"], dtype=bool), 1))
+    elif tamper == 2 and case["mask"] is not None and isinstance(est.feature_mask, np.ndarray):
+        est.feature_mask[...] = ~est.feature_mask
+    elif tamper == 3:
+        est.set_params(n_clusters=est.n_clusters + 1, temperature=est.temperature * 2)
     got = est.find_active_points(Q)
+    if tamper == 0:
+        got2 = est.find_active_points(Q)
+        if list(got2) != list(got):
+            raise Violation(f"{label}: two identical calls of find_active_points return {list(got)} then {list(got2)}")
+        if any(fi != fj or not np.array_equal(a, b) for (fi, a), (fj, b) in zip(cuts_before, est.cut_points_list_)):
+            raise Violation(f"{label}: find_active_points changed the fitted cut points from "
+                            f"{[(fi, a.tolist()) for fi, a in cuts_before]} to {[(fi, a.tolist()) for fi, a in est.cut_points_list_]}")
+        if not np.array_equal(est.predict_proba(X), P_before) or not np.array_equal(est.predict(X), pred_before):
+            raise Violation(f"{label}: after find_active_points the model predicts the training data differently "
+                            f"(max change {float(np.max(np.abs(est.predict_proba(X) - P_before))):.3g})")
     want = []
     between = False
-    for fi, arr in est.cut_points_list_:
+    for fi, arr in cuts_before:
         mn, mx = Q[:, fi].min(), Q[:, fi].max()
         if np.any((arr > mn) & (arr < mx)):
             want.append(fi)
@@ -189,9 +211,9 @@ def oracle_active(case):
     if sorted(int(g) for g in got) != want:
         raise Violation(f"{label}: find_active_points returned {list(got)} for data ranges "
                         f"{[(Q[:, f].min(), Q[:, f].max()) for f in range(d)]} and cut points "
-                        f"{[(fi, a.tolist()) for fi, a in est.cut_points_list_]}; features with a cut strictly inside their "
-                        f"range: {want}")
-    return {"nontrivial": bool(between), "classes": [f"cuts={case['n_cuts']}", f"active={len(want)}"]}
+                        f"{[(fi, a.tolist()) for fi, a in cuts_before]}; features with a cut strictly inside their "
+                        f"range: {want}" + ("" if tamper in (0,) else f" [after fit: {['', 'set_params(feature_mask=other)', 'mask array rewritten in place', 'set_params(n_clusters, temperature)'][tamper]}]"))
+    return {"nontrivial": bool(between), "classes": [f"cuts={case['n_cuts']}", f"active={len(want)}", f"tamper={tamper}"]}
 
 
 def subs():
